@@ -117,6 +117,8 @@ impl<'a> Writer<'a> {
     }
     fn write_chunk_impl(&mut self, kind: DataKind, data: Option<&[u8]>) -> Result<(), WriteError> {
         let data = data.unwrap_or(&self.buffer2);
+        // The reader decompresses chunks into a buffer of this size.
+        assert!(data.len() <= MAX_SNAPSHOT_SIZE, "too long chunk");
         self.huffman.clear();
         HUFFMAN
             .compress(data, &mut self.huffman)
